@@ -213,7 +213,16 @@ func min(a, b int) int {
 }
 
 func genDepText(t *rapid.T) DepText {
-	switch rapid.IntRange(0, 11).Draw(t, "src") {
+	switch rapid.IntRange(0, 12).Draw(t, "src") {
+	case 12:
+		if rapid.IntRange(0, 9).Draw(t, "bigCompact") != 0 {
+			return DepText{genDepCase(t).Text}
+		}
+		// a field of tens of KiB written as compactly as the grammar allows ("a,b|c(>=1)[amd64]"):
+		// its canonical rendering is a good deal longer than the input
+		target := rapid.IntRange(30000, 66000).Draw(t, "bigLen")
+		unit := rapid.SampledFrom([]string{"ab,", "a|b,", "abc(>=1),", "x[amd64],", "lib-a<!x>,", "a,b|c(>=1.0)[amd64 i386],"}).Draw(t, "bigUnit")
+		return DepText{strings.TrimSuffix(strings.Repeat(unit, target/len(unit)+1), ",")}
 	case 11:
 		// names that begin with a byte the parser takes for a name byte but other layers give a
 		// meaning to in the first column ('#' comment, '-' armor, '.' empty line, quotes ...), as
@@ -248,7 +257,7 @@ func genDepText(t *rapid.T) DepText {
 
 var specC05Fixpoint = Register(&Spec[DepText]{
 	Prop: "C05", Name: "fixpoint",
-	Rule:  "candidate strings from (a) all C04 renderings (ASTs x spacing classes), (b) 1..3 byte-level edits of them (insert/delete/replace/duplicate/splice, biased to the token bytes , | ( ) [ ] < > ! $ { } : blank tab newline and to bytes >= 0x80), (c) token soups and raw bytes, (d) the malformed fields of C04/malformed (substvars followed by clauses, unterminated constructs, doubled clauses ...), (e) fields whose first name (or the first name of a continuation line) starts with '#', '-', '.', a quote or another byte that means something in the first column of a line to other layers, written behind a blank, tab, line end or empty relation; every string dependency.Parse accepts must render to a string that is accepted, parses to a structurally identical value (names, qualifier triple, operator+number, arch list+negation, profile groups, substvar marker; nil == empty), is itself a fixpoint of render, equals MarshalControl, and reads back through UnmarshalControl. Non-trivial: accepted and not already canonical, or containing a substvar, qualifier, wildcard arch, negated list, >=2 profile groups, version constraint or non-ASCII byte; distinct by text.",
+	Rule:  "candidate strings from (a) all C04 renderings (ASTs x spacing classes), (b) 1..3 byte-level edits of them (insert/delete/replace/duplicate/splice, biased to the token bytes , | ( ) [ ] < > ! $ { } : blank tab newline and to bytes >= 0x80), (c) token soups and raw bytes, (d) the malformed fields of C04/malformed (substvars followed by clauses, unterminated constructs, doubled clauses ...), (f) fields of 30 to 66 KiB written as compactly as the grammar allows (their canonical rendering is longer), (e) fields whose first name (or the first name of a continuation line) starts with '#', '-', '.', a quote or another byte that means something in the first column of a line to other layers, written behind a blank, tab, line end or empty relation; every string dependency.Parse accepts must render to a string that is accepted, parses to a structurally identical value (names, qualifier triple, operator+number, arch list+negation, profile groups, substvar marker; nil == empty), is itself a fixpoint of render, equals MarshalControl, and reads back through UnmarshalControl. Non-trivial: accepted and not already canonical, or containing a substvar, qualifier, wildcard arch, negated list, >=2 profile groups, version constraint or non-ASCII byte; distinct by text.",
 	Check: func(c DepText, r *Recorder) error { return checkDepFixpoint(c.S, r) },
 })
 
